@@ -137,6 +137,9 @@ type Heap struct {
 	// Route selects how CheckNode reads a container: 0 Count/TypeOf/Get (KeyExists for objects), 1 Slice()/Dict(),
 	// 2 ForEach. The monitors vary it so that their own reads do not always take the same path through the library.
 	Route int
+	// TypedArgs: for an unbound node that stands for a native argument of a TYPED flavour ([]string, map[string]List, ...),
+	// the Go value to hand to the library (an untyped native tree is derived from the node itself).
+	TypedArgs map[*Node]any
 }
 
 func (h *Heap) newNode(k spec.Kind) *Node {
